@@ -1180,6 +1180,8 @@ def main(outfile):
     py2lean_filters.main_filters(os.path.join(os.path.dirname(outfile), 'TranslatedFilterObjs.lean'), sys.modules[__name__])
     import py2lean_oasync                                        # separate module: OutputAsync, shield_cancel (C12)
     py2lean_oasync.main(os.path.join(os.path.dirname(outfile), 'TranslatedOutputAsync.lean'), dict(Untranslatable=Untranslatable, node_path=node_path, fn_ast=fn_ast, emit=emit, write_if_changed=write_if_changed))
+    import py2lean_lifecycle                                     # separate module: run_forever & co. (C08)
+    py2lean_lifecycle.main_lifecycle(os.path.join(os.path.dirname(outfile), 'TranslatedLifecycle.lean'), sys.modules[__name__])
 
 
 if __name__ == '__main__':
